@@ -203,10 +203,11 @@ func (g *HTTPGroup) createConnByEndpoint(endpoint, remoteAddr string) (net.Conn,
 	var f vhost.CreateConnFunc
 	g.mu.RLock()
 	f = g.createFuncs[endpoint]
+	group := g.group
 	g.mu.RUnlock()
 
 	if f == nil {
-		return nil, fmt.Errorf("no CreateConnFunc for endpoint [%s] in group [%s]", endpoint, g.group)
+		return nil, fmt.Errorf("no CreateConnFunc for endpoint [%s] in group [%s]", endpoint, group)
 	}
 	return f(remoteAddr)
 }
